@@ -27,6 +27,7 @@ fn main() {
         "inline" => s_text::inline_line,
         "intfn" => s_text::intfn_line,
         "evalseq" => s_text::evalseq_line,
+        "evalhex" => s_text::evalhex_line,
         "strlit" => s_text::strlit_line,
         "preview" => s_preview::line,
         "serde" => s_serde::serde_line,
